@@ -66,9 +66,17 @@ theorem applyKwList_mem {kw : ChildKw} {key : Key} {c : Node} : ∀ {cs : List (
     · obtain ⟨c0, hm, e⟩ := applyKwList_mem h
       exact ⟨c0, List.mem_cons_of_mem _ hm, e⟩
 
-theorem childKw_iSafe {f : Flags} {k : CompKind} {kw : ChildKw} (h : childKw f k = some kw) :
-    kw.iSafe = f.safe.or f.iSafe := by
+theorem childKw_iSafe_eq {f : Flags} {k : CompKind} {kw : ChildKw} (h : childKw f k = some kw) :
+    kw.iSafe = if f.iSafe = some false then some false else f.safe.or f.iSafe := by
   cases k <;> simp only [childKw, Option.some.injEq] at h <;> first | (subst h; rfl) | cases h
+
+/-- what a container hands down: its own inherited `False` always wins, else the explicit flag, else the inherited one -/
+theorem childKw_iSafe {f : Flags} {k : CompKind} {kw : ChildKw} (h : childKw f k = some kw)
+    (hs : f.safe.or f.iSafe = some false) : kw.iSafe = some false := by
+  rw [childKw_iSafe_eq h]
+  split
+  · rfl
+  · exact hs
 
 theorem childKw_isSome_of_not_stream {f : Flags} {k : CompKind} {cs : List (Key × Node)}
     (h : (Node.comp f k cs).isStream = false) : ∃ kw, childKw f k = some kw := by
@@ -86,7 +94,16 @@ theorem propagate_children_unsafe (n : Node) (hst : n.isStream = false)
     intro key c hm
     simp only [propagate, hk, Node.children] at hm
     obtain ⟨c0, _, rfl⟩ := applyKwList_mem hm
-    exact applyKw_iSafe_false (by rw [childKw_iSafe hk]; exact h) c0
+    exact applyKw_iSafe_false (childKw_iSafe hk h) c0
+
+/-- the same, stated on what the node hands down (`_get_child_kwargs`) -/
+theorem propagate_children_unsafe_kw (f : Flags) (k : CompKind) (cs : List (Key × Node)) (kw : ChildKw)
+    (hk : childKw f k = some kw) (hs : kw.iSafe = some false) :
+    ∀ key c, (key, c) ∈ (propagate (.comp f k cs)).children → c.flags.iSafe = some false := by
+  intro key c hm
+  simp only [propagate, hk, Node.children] at hm
+  obtain ⟨c0, _, rfl⟩ := applyKwList_mem hm
+  exact applyKw_iSafe_false hs c0
 
 theorem propagate_isStream (n : Node) : (propagate n).isStream = n.isStream := by
   cases n with
